@@ -110,6 +110,49 @@ def whole_tree_variants(prop: str, baseline: list) -> tuple[dict, list]:
     return summary, problems
 
 
+def _replay_on_base(prop: str, mod, d: Path) -> str:
+    import json
+    import subprocess
+    import tempfile as _tf
+
+    try:
+        base = json.loads((d / "meta.json").read_text())["confirmation"]["tree_head"]
+    except Exception:  # noqa: BLE001
+        return "not applicable to this tree (no base recorded)"
+    tmp = Path(_tf.mkdtemp(prefix="fvbase_"))
+    try:
+        ar = subprocess.run(f"git -C {REPO} archive {base} compile.py dsl_compiler lib doc README.md LANGUAGE_SPEC.md | tar -x -C {tmp}", shell=True, capture_output=True, text=True)
+        if ar.returncode != 0:
+            return f"not applicable to this tree (base {base} not in the repository's history)"
+
+        def keys() -> set | None:
+            rep = Report(prop, "selftest")
+            try:
+                mod.run(Repo(tmp), rep, "quick")
+            except AnalysisError:
+                return None
+            except Exception:  # noqa: BLE001
+                return None
+            return {(o.rule, o.construct) for o in rep.obs if o.status == "violated"}
+
+        before = keys()
+        r = subprocess.run(["patch", "-p1", "-s", "-f", "-i", str(d / "patch.diff")], cwd=tmp, capture_output=True, text=True)
+        if r.returncode != 0:
+            return f"not applicable (does not apply to its recorded base {base})"
+        # the source model is cached per path: use a fresh Repo object
+        after = keys()
+        if before is None:
+            return f"not applicable to this tree (today's rules do not parse base {base})"
+        if after is None:
+            return f"analysis stops on base {base} + seed (fail-closed)"
+        new = sorted(after - before)
+        if new:
+            return f"reported on its base {base}: {new[0][0]} {new[0][1][:80]}"
+        return f"MISSED on its base {base}"
+    finally:
+        shutil.rmtree(tmp, ignore_errors=True)
+
+
 def seeded_variants(prop: str) -> tuple[dict, list]:
     """Apply every confirmed seeded defect kept under /verif/seeded/<prop>/ to a scratch copy of the tree and require the property's
     own rule set to report a violation.  A patch that no longer applies (the code it touches was repaired or moved since) is
@@ -132,7 +175,11 @@ def seeded_variants(prop: str) -> tuple[dict, list]:
             _copy_repo(tmp)
             r = subprocess.run(["patch", "-p1", "-s", "-f", "-i", str(d / "patch.diff")], cwd=tmp, capture_output=True, text=True)
             if r.returncode != 0:
-                summary[d.name] = "not applicable to this tree (the touched code changed since the seed was written)"
+                # The touched code changed since the seed was written (usually: it was repaired).  Replay the seed on the tree it was written
+                # against — taken from /repo's own history — and require a violation that the same tree *without* the seed does not have.
+                summary[d.name] = _replay_on_base(prop, mod, d)
+                if summary[d.name].startswith("MISSED"):
+                    problems.append((f"seed:{prop}/{d.name}", "missed", "seeded defect not reported on its base tree"))
                 continue
             rep = Report(prop, "selftest")
             try:
